@@ -43,10 +43,21 @@ def mutate(rng, s, k, alpha, indels=True):
     return "".join(s)
 
 
-def gen_config(rng, long_adapters=False, allow_force_anywhere=True, very_long=0.0):
+# (length, absolute number of errors) for which number/length*length falls just below the number in double precision
+# (int() of it loses one error), and one (rate, length) pair of the same kind: every place that computes the number of
+# allowed errors has to arrive at the same value
+ROUNDING_PAIRS = [(m, k) for m in range(2, 131) for k in range(1, 7) if k < m and int((k / m) * m) != k]
+
+
+def gen_config(rng, long_adapters=False, allow_force_anywhere=True, very_long=0.0, rounding=0.03):
     t = rng.choice(R.TYPES)
     wild = rng.random() < 0.3
     vl = rng.random() < very_long
+    if rng.random() < rounding:
+        m, k = rng.choice(ROUNDING_PAIRS + [(90, 0.7)])
+        return dict(type=t, seq=rnd_seq(rng, m, "ACGT"), max_errors=k, min_overlap=rng.choice([1, 3, m // 2, m]), aw=rng.random() < 0.8,
+                    rw=rng.random() < 0.25, indels=rng.random() < 0.6,
+                    fa=bool(allow_force_anywhere and t in ("back", "front", "rightmost") and rng.random() < 0.12))
     if vl:
         # k+1 chunks of about 64 characters: the k-mers of one search set straddle the 64-character word of the finder
         m = rng.choice([rng.randint(126, 134), rng.randint(190, 198), rng.randint(120, 200)])
